@@ -5,8 +5,8 @@ MusicXML reader itself uses for the same notation (directions through partitura.
 explicit, every note carries its symbolic duration - so the expected result of load(save(s)) is s itself."""
 from fractions import Fraction
 
-FEATURES = ["pickup", "chord", "two_voices", "two_staves", "tie_barline", "tie_chain", "tie_cross_voice", "grace", "grace_chain", "slur", "slur_chain", "slur_overlap", "slur_barline",
-            "tuplet", "dynamics", "wedge", "wedge_overlap", "dashes", "words", "pedal", "pedal_barline", "tempo", "tempo_mid", "repeat", "ending", "fermata_note", "fermata_barline", "fermata_inner_barline",
+FEATURES = ["pickup", "chord", "two_voices", "two_staves", "tie_barline", "tie_chain", "tie_cross_voice", "grace", "grace_chain", "grace_run_below", "slur", "slur_chain", "slur_overlap", "slur_barline",
+            "tuplet", "dynamics", "wedge", "wedge_overlap", "dashes", "words", "words_quantified", "pedal", "pedal_barline", "tempo", "tempo_mid", "repeat", "ending", "fermata_note", "fermata_barline", "fermata_inner_barline",
             "articulation", "articulation_order", "fingering", "stem", "unpitched", "rests", "key_change", "ts_change", "clef_change", "divisions_change",
             "divisions_change_mid", "dotted", "page", "two_parts", "group", "nested_group", "nested_group_first", "voice_gap", "polyphony", "polyphony_two_voices",
             "measure_names", "irregular_measure", "accidentals", "duplicate_ids"]
@@ -192,6 +192,17 @@ def build(features, pid="P1", seed=0):
             g1.grace_prev = g
             last = g1
         last.grace_next = B.byid["n3"]
+    if "grace_run_below" in f:
+        # upward runs of two grace notes that lie BELOW their main notes: before n3 (F4, first note of its measure, more notes of the voice follow)
+        # and before n5 (A4, last note of its measure)
+        for main, steps in (("n3", ("C", "D")), ("n5", ("E", "G"))):
+            ga = sc.GraceNote("grace", step=steps[0], octave=4, id=pre + "gb0" + main, voice=1, staff=1, symbolic_duration=dict(type="16th"))
+            gb = sc.GraceNote("grace", step=steps[1], octave=4, id=pre + "gb1" + main, voice=1, staff=1, symbolic_duration=dict(type="16th"))
+            tm = B.byid[main].start.t
+            part.add(ga, tm, tm)
+            part.add(gb, tm, tm)
+            ga.grace_next, gb.grace_prev = gb, ga
+            gb.grace_next = B.byid[main]
     # ---- slurs / tuplets
     if "slur" in f:
         a, b = B.byid["n0"], B.byid["n2"]
@@ -250,6 +261,12 @@ def build(features, pid="P1", seed=0):
     if "words" in f:
         direction("dolce", m1)
         direction("some unknown words", m3)
+    if "words_quantified" in f:
+        # printed texts that are more than the normalised term: a quantifier before it, two terms joined by a conjunction
+        # (built by hand, not through the library's own parser: the printed text is the datum under test)
+        part.add(sc.DecreasingTempoDirection("ritardando", raw_text="poco rit."), B.t(m1 + 1), B.t(m2))
+        part.add(sc.ConstantTempoDirection("stretto", raw_text="molto stretto"), B.t(m2 + 1))
+        part.add(sc.IncreasingLoudnessDirection("crescendo", raw_text="sempre cresc."), B.t(m3), B.t(m3 + 2))
     if "pedal" in f:
         part.add(sc.SustainPedalDirection(line=False), B.t(m1), B.t(m1 + 2))
         # (one sustain pedal cannot be down twice: with the pedal held across the barline into m3 the second one starts after that is released)
